@@ -364,8 +364,11 @@ func (k *checker) perUnit(o *txObs, lo uint64, q quirks) bool {
 		if s.Table == "" {
 			return ""
 		}
-		if s.Hint != "" || (s.IsQuery() && o.Stmts[i].Secondary) {
-			return s.Table + "/secondary"
+		if s.IsQuery() && o.Stmts[i].Secondary {
+			return s.Table + "/" + o.Stmts[i].SecIndex // every secondary index is a store index of its own
+		}
+		if s.Hint != "" {
+			return s.Table + "/" + s.Hint
 		}
 		return s.Table
 	}
